@@ -23,7 +23,7 @@ from sim.ref import graph as gref
 from sim.seam import OwnedRNG
 
 ID = "C16"
-RUNS = {"quick": 3000, "thorough": 150000}
+RUNS = {"quick": 6000, "thorough": 200000}
 BUDGET = {"quick": 80, "thorough": 1500}
 CHUNK = {"quick": 50, "thorough": 200}
 RUN_TIMEOUT_S = 300
